@@ -21,18 +21,28 @@ PROPS = [f"C{i:02d}" for i in range(1, 21)]
 
 
 def scratch(patch=None):
-    d = tempfile.mkdtemp(prefix="prsa_seed_")
-    subprocess.check_call(["git", "-C", "/repo", "worktree", "add", "-q", "--detach", os.path.join(d, "repo"), "HEAD"])
-    root = os.path.join(d, "repo")
+    import time
+    for attempt in range(6):
+        d = tempfile.mkdtemp(prefix="prsa_seed_")
+        # (the directory name doubles as git's worktree id: unique names keep concurrent runs out of each other's way)
+        root = os.path.join(d, "wt" + os.path.basename(d)[-8:])
+        try:
+            subprocess.check_call(["git", "-C", "/repo", "worktree", "add", "-q", "--detach", root, "HEAD"], stderr=subprocess.DEVNULL)
+            break
+        except subprocess.CalledProcessError:
+            shutil.rmtree(d, ignore_errors=True)
+            if attempt == 5:
+                raise
+            time.sleep(0.5 + attempt)
     if patch:
         subprocess.check_call(["git", "-C", root, "apply", os.path.abspath(patch)])
     return d, root
 
 
 def cleanup(d):
-    subprocess.call(["git", "-C", "/repo", "worktree", "remove", "--force", os.path.join(d, "repo")], stdout=subprocess.DEVNULL, stderr=subprocess.DEVNULL)
+    for name in (os.listdir(d) if os.path.isdir(d) else ()):
+        subprocess.call(["git", "-C", "/repo", "worktree", "remove", "--force", os.path.join(d, name)], stdout=subprocess.DEVNULL, stderr=subprocess.DEVNULL)
     shutil.rmtree(d, ignore_errors=True)
-    subprocess.call(["git", "-C", "/repo", "worktree", "prune"])
 
 
 def run_tests(root):
